@@ -5306,6 +5306,7 @@ func (t *Terminal) Loop() error {
 						// Need to resize header window
 						req(reqFullRedraw)
 					} else {
+						t.forceRerenderList()
 						req(reqHeader, reqList, reqPrompt, reqInfo)
 					}
 				} else {
@@ -5732,12 +5733,15 @@ func (t *Terminal) Loop() error {
 				req(reqInfo)
 			case actShowHeader:
 				t.headerVisible = true
+				t.forceRerenderList()
 				req(reqList, reqInfo, reqPrompt, reqHeader)
 			case actHideHeader:
 				t.headerVisible = false
+				t.forceRerenderList()
 				req(reqList, reqInfo, reqPrompt, reqHeader)
 			case actToggleHeader:
 				t.headerVisible = !t.headerVisible
+				t.forceRerenderList()
 				req(reqList, reqInfo, reqPrompt, reqHeader)
 			case actToggleWrap:
 				t.wrap = !t.wrap
